@@ -82,8 +82,8 @@ CATALOGUE = {
   (DEC, "    msg_bytes = list(msg_bytes)\n", "", C),   # D23 again
  ],
  'C03': [
-  (MSGS, "            check_value(name, value)\n            if name == 'data':\n                vars(self)['data'] = SysexData(value)\n            else:\n                vars(self)[name] = value",
-         "            if name == 'data':\n                vars(self)['data'] = SysexData(value)\n            else:\n                vars(self)[name] = value\n            check_value(name, value)", C),
+  (MSGS, "            check_value(name, value)\n            vars(self)[name] = value",
+         "            vars(self)[name] = value\n            check_value(name, value)", C),
   (MSGS, "        msgdict = vars(self).copy()\n        msgdict.update(overrides)", "        msgdict = vars(self)\n        msgdict.update(overrides)", C),
   (CHK, "        check_value(name, value)", "        if name != 'time':\n            check_value(name, value)", C),
   (MSGS, "        elif name not in vars(self):", "        elif name not in vars(self) and name.startswith('_'):", C),
@@ -142,7 +142,7 @@ CATALOGUE = {
   (MF, "            data.extend(msg.bytes())\n            running_status_byte = None", "            data.extend(msg.bytes())", C),
   (MF, "            if status_byte < 0xf0:\n                running_status_byte = status_byte\n            else:\n                running_status_byte = None",
        "            running_status_byte = status_byte", C),
-  (MF, "        if msg.time < 0:", "        if msg.time < 0 and not msg.is_meta:", S),
+  (MF, "    if msg.time < 0:", "    if msg.time < 0 and not msg.is_meta:", C),   # (no longer equivalent since D28: a negative meta time behind a mid-track end_of_track)
   (TRK, "                yield msg.copy(skip_checks=skip_checks, time=delta)\n                accum = 0", "                yield msg.copy(skip_checks=skip_checks, time=delta)", C),
   (MF, "    return struct.unpack('>hhh', data[:6])", "    t, n, d = struct.unpack('>hhh', data[:6])\n    return t, d, n", C),
   (MF, "            peek_data = [status_byte]\n            status_byte = last_status", "            peek_data = []\n            status_byte = last_status", C),
@@ -294,7 +294,7 @@ CATALOGUE = {
  'C19': [
   (SYX, "    messages = [m for m in messages if m.type == 'sysex']", "    messages = list(messages)", C),
   (SYX, "    return [msg for msg in parser if msg.type == 'sysex']", "    return list(parser)", C),
-  (SYX, "    if data[0] == 240:", "    if data[0] == 0xf7:", C),
+  (SYX, "    if data[0] >= 0x80:", "    if data[0] == 0xf7:", C),
   (SYX, "    if len(data) == 0:\n        # Empty file.\n        return []", "", C),
   (SYX, "                outfile.write(message.hex())\n                outfile.write('\\n')", "                outfile.write(message.hex())", S),
   (SYX, "    if data[0] >= 0x80:", "    if data[0] == 240:", C),   # D33 again
